@@ -138,7 +138,7 @@ RefFilter(sc, c, v) ==
   \/ c.sel = <<"m","h">> /\ v \in RefValsH
 RefBindVals == RefValsF \cup RefValsG \cup RefValsH
 \* scenario model: scoped references against every ambient scope (also one that ends with the reference's own scope)
-RefScopeVals == { GCallA, GBareA, <<"list", <<GCallA, GCall>>>> }
+RefScopeVals == { GCallA, GBareA, <<"list", <<GCallA, GCall>>>>, Wrap("tuple", Wrap("tuple", GCallA)), Wrap("dict", Wrap("tuple", GCall)) }
 RefScopeFilter(sc, c, v) == c.sel = <<"m","f">> /\ v \in RefScopeVals /\ sc = <<>>
 RefBindValsQuick == (RefValsF \ Nest2) \cup RefValsG \cup RefValsH \cup { Wrap("tuple", Wrap("tuple", GCall)), Wrap("dict", Wrap("list", GCall)) }
 RefFilterQuick(sc, c, v) == RefFilter(sc, c, v) /\ v \in RefBindValsQuick
